@@ -80,13 +80,16 @@ FlagsValidFor(wflags, wv) ==
     /\ (F_MAID \in wflags => HasMaidChunk(wv))
     /\ (F_FIRELANDS \in wflags => VGe(wv, "Cataclysm"))
     /\ (F_HEIGHTTEX \in wflags => VGe(wv, "MoP"))
-WdtValid(wd) ==
-    /\ FlagsValidFor(wd.flags, wd.ver)
+\* structural validity: which chunks a map kind / version carries.  Header flags are free: validate() only
+\* WARNS about flags that do not fit the version, the writer writes them, so the round trip has to hold
+WdtStructValid(wd) ==
     /\ IF WmoOnly(wd) THEN wd.hasMwmo /\ wd.hasModf
        ELSE ~wd.hasModf /\ (wd.hasMwmo <=> ShouldHave("MWMO", FALSE, wd.ver))
     /\ (MaidFlag(wd) <=> wd.hasMaid)
-    /\ (wd.hasMaid => wd.nSec >= 1)
+    /\ (wd.hasMaid => wd.nSec >= 1 /\ HasMaidChunk(wd.ver))       \* flag 0x0200 + MAID chunk are one structural feature (8.1+)
     /\ (~wd.hasMwmo => wd.names = <<>>) /\ (~wd.hasModf => wd.nModf = 0) /\ (~wd.hasMaid => wd.nSec = 0)
+\* WdtFile::validate() reports nothing
+WdtValid(wd) == FlagsValidFor(wd.flags, wd.ver) /\ WdtStructValid(wd)
 
 SumSeq(wseq) == FoldLeft(LAMBDA wa, wb : wa + wb, 0, wseq)
 NamesBytes(wnames) == SumSeq(wnames) + Len(wnames)                 \* every name is NUL terminated
@@ -473,7 +476,7 @@ FinishedLayout == vpc \in {"r", "r2", "done"} =>
 
 \* WDT: for a definition that is valid for its version the reader returns equal content, and a
 \* second write of what was read (with the re-detected version) produces the same chunk list
-WdtRoundTrip == (vfmt = "wdt" /\ vpc = "done" /\ WdtValid(vdef)) =>
+WdtRoundTrip == (vfmt = "wdt" /\ vpc = "done" /\ WdtStructValid(vdef)) =>
                 /\ SameContentWdt(ReadBackWdt, vdef)
                 /\ WdtChunkSpecs(ReadBackWdt) = WdtChunkSpecs(vdef)
 \* for an invalid one the only loss is the MWMO the version rule forbids
